@@ -43,7 +43,7 @@ FLOORS = {"fallback": 0.15, "mixed_forms": 0.25, "supplied": 0.3}
 PORT = 6053
 
 LITERALS = ["10.0.0.5", "192.168.1.7", "fd00::1", "fe80::1%3", "::1", "2001:db8::2%12"]
-LOCALS = ["kitchen", "bedroom", "kitchen.local", "porch.local.", "bedroom.local"]
+LOCALS = ["kitchen", "bedroom", "kitchen.local", "porch.local.", "bedroom.local", "living_room", "living_room.local", "esp-01", "ESP32_a"]
 FQDNS = ["dev.example.com", "esp.lan", "a.b.c.org"]
 
 
@@ -406,7 +406,7 @@ def _case(draw, tier):
                 ops[-1]["again"] = draw(st.booleans())
         else:
             ops.append({"op": "rl", "tcp": draw(st.sampled_from(["refuse", "ok"])), "pass_instance": draw(st.booleans()), "wait": draw(st.sampled_from([1, 3])), "address": draw(st.sampled_from(["kitchen.local", "kitchen", "10.0.0.5"]))})
-    mdns = {n: draw(st.sampled_from(MDNS_OUT + ([MDNS_HANG] if any(o["op"] == "client" for o in ops) else []))) for n in ("kitchen", "bedroom", "porch")}
+    mdns = {n: draw(st.sampled_from(MDNS_OUT + ([MDNS_HANG] if any(o["op"] == "client" for o in ops) else []))) for n in ("kitchen", "bedroom", "porch", "living_room", "esp-01", "ESP32_a")}
     dns = {h: draw(st.sampled_from(DNS_OUT)) for h in LOCALS + FQDNS}
     return {"manager": draw(st.sampled_from(["none", "empty", "empty", "supplied_async", "supplied_sync"])), "mdns": mdns, "dns": dns, "ops": ops}
 
@@ -419,6 +419,11 @@ def enumerated(tier):
     for kind in ("async", "sync"):
         yield {"manager": "empty", "mdns": {}, "dns": {}, "ops": [{"op": "get"}, {"op": "supply", "kind": kind}, {"op": "close"}]}
         yield {"manager": "empty", "mdns": {"kitchen": MDNS_OUT[0]}, "dns": {}, "ops": [{"op": "get"}, {"op": "supply", "kind": kind}, {"op": "resolve", "hosts": ["kitchen.local"]}, {"op": "close"}, {"op": "supply", "kind": kind}, {"op": "close"}]}
+    # bare names are whatever has neither dot nor colon: underscores, hyphens, capitals included
+    for h in ("living_room", "living_room.local", "esp-01", "ESP32_a", "a_b-c"):
+        for mo in MDNS_OUT[:3]:
+            for do in DNS_OUT:
+                yield {"manager": "empty", "mdns": {h.partition(".")[0]: mo}, "dns": {h: do}, "ops": [{"op": "resolve", "hosts": [h]}, {"op": "resolve", "hosts": ["10.0.0.5", h, "fd00::7"]}]}
     # several configured addresses, the socket landing on the k-th candidate, then a second connect on the same client
     for addrs in (["10.0.0.5", "10.0.0.6"], ["10.0.0.5", "fd00::7", "10.0.0.6"], ["fe80::1%3", "10.0.0.5"], ["10.0.0.5", "kitchen.local"]):
         for land in (0, 1, 2):
